@@ -31,7 +31,7 @@ import os, sys, json, time, subprocess, collections, concurrent.futures as cf
 from . import common
 from .common import Rng, Result, log
 
-NSHARD = 16
+NSHARD = max(4, min(32, common.NCPU))
 FAMILIES = ("sse", "avx2", "avx512")
 ALL_EPS = (0, 1, 2, 3, 4, 5, 6)
 
@@ -868,6 +868,14 @@ def run_check(pid, tier, seed, generate, derive=None, test_files=(), title="", t
     (decrypt jobs fed the model ciphertext) and returns (new_items, selfcheck_failures)."""
     res = Result(pid, tier, seed, "proof")
     t_start = time.time()
+    # replays of earlier runs of this check would be mistaken for findings of this one
+    if os.path.isdir(common.REPLAYS):
+        for f in os.listdir(common.REPLAYS):
+            if f.startswith(pid + "_k1_") or f.startswith(pid + "_selfcheck_") or f == pid + "_unproved.json":
+                try:
+                    os.remove(os.path.join(common.REPLAYS, f))
+                except OSError:
+                    pass
     tools = Tools()
     eng = Engine(pid, tier, seed, tools)
     props = os.path.join(common.COQDIR, "Props", "Properties_%s.v" % pid)
@@ -1588,7 +1596,7 @@ def gen_docsis_crc(g, tier):
         # all (hash_off, cipher_off, len) with a short frame + block-residue sweep
         for hoff in (0, 1, 2, 6):
             for hlen in list(range(14, 80)) + [16 * k + 14 + (k % 16) for k in range(5, 40)] + [1500, 1518, 2000, 4096]:
-                if tier == "quick" and (j % 3) and hlen > 40:
+                if tier == "quick" and (j % 4) and hlen > 40:
                     j += 1
                     continue
                 for cstart in sorted({12, 13, 14, 16 + j % 5, hlen - 1, hlen + 4}):
@@ -1618,7 +1626,7 @@ def gen_docsis_crc(g, tier):
             for (cs, cl) in ((12, hlen - 12 - 8), (16, 16), (20, 32), (12, 33)):
                 if cl + 8 > hlen or cl <= 0:
                     continue
-                g.add(4, 21, "DOCSIS+CRC32/nonstd-geometry", dir=1, order=2, key=g.rnd(kl), iv=g.rnd(16), msg=g.rnd(hlen + 8), coff=cs,
+                g.add(4, 21, "DOCSIS+CRC32/nonstd-geometry", dir=1, order=2, key=g.rnd(kl), iv=g.rnd(16), msg=g.rnd(max(hlen + 8, cs + cl + 4)), coff=cs,
                       clen=cl, hoff=0, hlen=hlen, tag=4, inplace=1)
 
 
